@@ -59,7 +59,9 @@ def oracle(ops, outs):
     """evaluated on the IMPLEMENTATION's outputs only.  Per history: a task is WAITING after `ok pending` until its next
     `ok ready`; it has a pending wake-up once a later op reported it woken and it has not polled since.  Violation: after a
     capacity-raising op, a waiting task without a pending wake-up exists although more streams can be opened than there are
-    waiting tasks with a pending wake-up (so even after all of those took a stream, one would be left for it)."""
+    waiting tasks with a pending wake-up (so even after all of those took a stream, one would be left for it).  The signature
+    says `stale-slot` when, earlier in the history, a task had been served while its waker was still registered (the known cause:
+    its slot keeps absorbing wake-ups and displaces the real waiters), else it is generic."""
     bad = []
     st = None
     for i, (op, out) in enumerate(zip(ops, outs)):
@@ -68,20 +70,27 @@ def oracle(ops, outs):
             st = None
             continue
         if t[0] == "new" and out == "ok new":
-            st = {"peer": int(t[1]), "local": int(t[2]), "opened": 0, "closed": 0, "waiting": set(), "woken": set(), "closed_conn": False}
+            st = {"peer": int(t[1]), "local": int(t[2]), "opened": 0, "closed": 0, "waiting": set(), "woken": set(), "closed_conn": False, "stale": 0, "stale_ever": False}
             continue
         if st is None or not out.startswith("ok"):
             continue
         if t[0] == "poll":
             task = int(t[1])
-            st["woken"].discard(task)
             if out == "ok ready":
                 st["opened"] += 1
+                if task in st["waiting"] and task not in st["woken"]:
+                    st["stale"] += 1       # it still has a registered waker: the implementation keeps that slot
+                    st["stale_ever"] = True
                 st["waiting"].discard(task)
+                st["woken"].discard(task)
             else:
                 st["waiting"].add(task)
+                st["woken"].discard(task)
             continue
         woken = [] if out == "ok -" else [int(x) for x in out[3:].split(",")]
+        spurious = [w for w in woken if w not in st["waiting"]]
+        stale_before = st["stale"]
+        st["stale"] = max(0, st["stale"] - len(spurious))
         if t[0] == "max":
             st["peer"] = max(st["peer"], int(t[1]))
         elif t[0] == "close_stream":
@@ -99,8 +108,13 @@ def oracle(ops, outs):
         served = len(st["waiting"] & st["woken"])
         parked = sorted(st["waiting"] - st["woken"])
         if parked and cap > served:
-            bad.append((i, "c02:open-waiter:lost-wakeup:stale-slot",
-                        f"op {i} `{op}` woke tasks {woken}: task(s) {parked} are parked on poll_open_stream with no pending wake-up although "
-                        f"{cap} stream(s) can be opened and only {served} waiting task(s) were woken (the wake-up went to the stale waker slot "
-                        f"of a task that had already opened its stream)"))
+            if spurious or stale_before > 0 or st["stale_ever"]:
+                bad.append((i, "c02:open-waiter:lost-wakeup:stale-slot",
+                            f"op {i} `{op}` woke tasks {woken}: task(s) {parked} are parked on poll_open_stream with no pending wake-up although "
+                            f"{cap} stream(s) can be opened and only {served} waiting task(s) were woken (the wake-up went to / is reserved for the stale "
+                            f"waker slot of a task that had already opened its stream)"))
+            else:
+                bad.append((i, "c02:open-waiter:lost-wakeup",
+                            f"op {i} `{op}` woke tasks {woken}: task(s) {parked} are parked on poll_open_stream with no pending wake-up although "
+                            f"{cap} stream(s) can be opened and only {served} waiting task(s) were woken"))
     return bad
